@@ -27,11 +27,17 @@ int main()
         }
         std::cout << "BEGIN " << path << " rc=" << rc << "\n";
         if (!exc.empty()) std::cout << "EXCEPTION " << quote(exc) << "\n";
-        for (auto& t : doc.get_templates()) {
+        // the template called P carries the formulas; it is an ordinary or a dynamic template
+        auto dump = [](template_t& t) {
             for (auto& l : t.locations) std::cout << "L " << l.nr << " inv=" << tsexp(l.invariant.empty() ? type_t() : l.invariant.get_type()) << "\n";
             for (auto& e : t.edges) std::cout << "E " << e.nr << " guard=" << tsexp(e.guard.empty() ? type_t() : e.guard.get_type()) << "\n";
-            break;   // only the first template carries formulas
-        }
+        };
+        bool found = false;
+        for (auto& t : doc.get_templates())
+            if (!found && t.uid.get_name() == "P") { dump(t); found = true; }
+        if (!found)
+            for (auto* t : doc.get_dynamic_templates())
+                if (!found && t->uid.get_name() == "P") { dump(*t); found = true; }
         dumpDiags(std::cout, doc);
         std::cout << "END" << std::endl;
     }
